@@ -18,3 +18,6 @@ CHECKS["C05"] = checks_vec.c05
 CHECKS["C12"] = checks_vec.c12
 import checks_mon
 CHECKS["C18"] = checks_mon.c18
+import checks_misc
+CHECKS["C19"] = checks_misc.c19
+CHECKS["C20"] = checks_misc.c20
